@@ -20,6 +20,9 @@ typedef tlx::SHA256 D; typedef std::uint32_t WORD;
 typedef tlx::SHA512 D; typedef std::uint64_t WORD;
 #define COMPRESS tlx::digest_detail::sha512_compress
 #endif
+#ifdef TLX_VERIF_NATIVE   // the native replay links this TU alone: the hex wrappers of the digest classes need hexdump
+#include <tlx/string/hexdump.cpp>
+#endif
 extern "C" {
 void w_dg_init(D* d) { new (d) D(); }
 void w_dg_process(D* d, const void* data, std::uint32_t size) { d->process(data, size); }
